@@ -15,6 +15,164 @@ LOAD_MODULES = ['yatiml.loader', 'yatiml.recognizer', 'yatiml.constructors', 'ya
                 'yatiml.introspection']
 
 
+def _cycle_sets(g, node):
+    """which parameter is the set of ancestors (the one whose membership test guards the raise) and which the set of finished nodes
+    (another parameter that the node is added to)"""
+    anc = None
+    for x in g.raises():
+        for a_, p_ in g.guards(x):
+            t, pol = g.alpha.atom(a_, p_)
+            for pn in g.fi.params[2:]:
+                if pol and t in ('id(%s) in %s' % (node, pn), '%s in %s' % (node, pn)):
+                    anc = pn
+    done = None
+    for c in g.walk():
+        if isinstance(c, ast.Call) and isinstance(c.func, ast.Attribute) and c.func.attr in ('add', 'update') and isinstance(c.func.value, ast.Name) \
+                and c.func.value.id in g.fi.params[2:] and c.func.value.id != anc and c.args and g.alpha.text(c.args[0]) in ('id(%s)' % node, node):
+            done = c.func.value.id
+    if anc is None and len(g.fi.params) > 2:
+        anc = g.fi.params[2]
+    return anc, done
+
+
+def _cycle_discipline(r, g, fname: str, raise_class: str):
+    """the discipline of a recursive walk that refuses a node found among its own ancestors - shared by the loader's check and by
+    any sibling written after it (cross-check of siblings: they must agree on entering, leaving, memoising and descending)"""
+    a = g.fi.node.args
+    mutable_defaults = [norm(d) for d in a.defaults + [x for x in a.kw_defaults if x is not None]
+                        if isinstance(d, (ast.List, ast.Dict, ast.Set, ast.Call))]
+    r.check(not mutable_defaults, '%s has no mutable default arguments' % fname, g.key('mutable-defaults'), g.loc(),
+            '%s has mutable default arguments %s: the ancestor/done sets persist across calls' % (fname, mutable_defaults))
+    node = g.fi.params[1]
+    S._structural_recursion(r, g, fname, node,
+                            lambda n: isinstance(n.func, ast.Attribute) and n.func.attr.endswith(fname), False)
+    rs = g.raises()
+    anc, done_p = _cycle_sets(g, node)
+    ok = bool(rs) and all(S.raise_class(x) == raise_class for x in rs) and anc is not None and any(
+        any(g.alpha.atom(a_, p_) in (('id(%s) in %s' % (node, anc), True), ('%s in %s' % (node, anc), True)) for a_, p_ in g.guards(x))
+        for x in rs)
+    r.check(ok, 'a node found among its own ancestors raises %s' % raise_class, g.key('raise'), g.loc(),
+            'the cycle check does not raise %s when a node is met among its own ancestors' % raise_class)
+    if anc is not None:
+        adds = [c for c in g.walk() if isinstance(c, ast.Call) and isinstance(c.func, ast.Attribute) and norm(c.func.value) == anc
+                and c.func.attr == 'add' and c.args and g.alpha.text(c.args[0]) in ('id(%s)' % node, node)]
+        rec = [c for c in g.walk() if isinstance(c, ast.Call) and isinstance(c.func, ast.Attribute) and c.func.attr.endswith(fname)]
+        r.check(bool(adds) and all(any(g.cfg.dominates(g.nid(a_), g.nid(c)) for a_ in adds) for c in rec),
+                'the node is entered into the ancestor set before descending', g.key('ancestors-add'), g.loc(),
+                'the node is not recorded as an ancestor before its children are visited')
+        r.check(all(any(norm(x) == anc for x in c.args) for c in rec), 'the same ancestor set is passed down', g.key('ancestors-passed'),
+                g.loc(), 'the recursive calls do not receive the ancestor set')
+        # ... each set in its own position: ancestors and finished nodes are both sets of ids, swapping them type-checks
+        own = [x for x in (anc, done_p) if x is not None]
+        pos_of = {pn: k for k, pn in enumerate(g.fi.params[1:])}
+        for c in rec:
+            byname = {pn: norm(c.args[k]) for pn, k in pos_of.items() if k < len(c.args)}
+            byname.update({k.arg: norm(k.value) for k in c.keywords if k.arg})
+            passed = [byname.get(x) for x in own]
+            r.check(passed == own, 'recursive call passes (%s) in the positions it received them' % ', '.join(own),
+                    g.key('recursive-call-arguments:%s' % g.alpha.text(c.args[0])[:40] if c.args else 'recursive-call-arguments'), g.loc(c),
+                    'a recursive call of the cycle check passes %s where the function takes %s: the set of ancestors and the set of '
+                    'finished nodes change roles on the way down, so a node shared between two branches is reported as containing itself '
+                    '(or a real cycle is missed)' % (passed, own))
+        # the node leaves the ancestor set again on every normal exit after it was entered: otherwise a node referenced twice
+        # by siblings ([*a, *a]) is reported as containing itself although the document is a tree
+        rems = {g.nid(c) for c in g.walk() if isinstance(c, ast.Call) and isinstance(c.func, ast.Attribute) and norm(c.func.value) == anc
+                and c.func.attr in ('remove', 'discard') and c.args and g.alpha.text(c.args[0]) in ('id(%s)' % node, node)}
+        okrem = bool(adds) and bool(rems)
+        for a_ in adds:
+            for rn in g.cfg.returns():
+                if rn in g.cfg.reachable(g.nid(a_)) and not g.cfg.must_pass(g.nid(a_), rn, rems):
+                    okrem = False
+        r.check(okrem, 'the node is removed from the ancestor set on every normal exit after it was entered', g.key('ancestors-remove'),
+                g.loc(), 'a node stays in the ancestor set after its subtree was checked: a second, sibling reference to the same anchored '
+                'node (`[*a, *a]`, `{x: *a, y: *a}`) is rejected as self-referential although its expansion loads')
+        # the memo of finished nodes is written after the subtree: a node marked "checked" on entry is skipped by the memo test
+        # when an alias leads back to it from inside - before the ancestor test can see the cycle
+        if done_p is not None:
+            marks = [c for c in g.walk() if isinstance(c, ast.Call) and isinstance(c.func, ast.Attribute) and norm(c.func.value) == done_p
+                     and c.func.attr in ('add', 'update') and g.live(c)]
+            def member_of(b, setname):
+                return any(isinstance(x, ast.Compare) and len(x.ops) == 1 and isinstance(x.ops[0], (ast.In, ast.NotIn))
+                           and norm(x.comparators[0]) == setname for x in ast.walk(b.ast))
+            memo_tests = [b for b in g.cfg.nodes if b.kind == 'test' and member_of(b, done_p)]
+            anc_tests = [b for b in g.cfg.nodes if b.kind == 'test' and member_of(b, anc) and not member_of(b, done_p)]
+            anc_first = bool(anc_tests) and all(any(g.cfg.dominates(t.id, m.id) for t in anc_tests) for m in memo_tests)
+            for m_ in marks:
+                after = g.cfg.reachable(g.nid(m_))
+                early = [c for c in rec if g.nid(c) in after and g.nid(c) != g.nid(m_)]
+                r.check(not early or anc_first, 'the node is marked as checked only after its subtree was visited', g.key('memo-after-descent'),
+                        g.loc(m_), 'the node is entered into the set of finished nodes before its children are visited, and that set is '
+                        'consulted before the ancestor set: an alias from inside the node back to it (`&a [*a]`) returns at the memo test, '
+                        'the cycle is never reported and the loader recurses without bound')
+        # early exits before the descent are taken only for nodes that cannot contain anything (scalars) or were checked already
+        done = done_p
+        allowed = {'isinstance(%s, yaml.ScalarNode)' % node}
+        if done is not None:
+            allowed |= {'id(%s) in %s' % (node, done), '%s in %s' % (node, done)}
+        first_rec = [g.nid(c) for c in rec]
+        for ret in g.returns():
+            if any(g.cfg.dominates(x, g.nid(ret)) for x in first_rec) or any(g.nid(a_) is not None and g.cfg.dominates(g.nid(a_), g.nid(ret)) for a_ in adds):
+                continue
+            inner = g.cfg.guard_nodes(g.nid(ret))
+            okx = bool(inner)
+            # "no children gathered": the collection the descent loops over is empty
+            child_vars = {l.iter.id for c in rec for l in S.enclosing_loops(c, g.node) if isinstance(l, ast.For) and isinstance(l.iter, ast.Name)}
+            if inner and G.canon_atom(inner[-1].ast, inner[-1].pol) in {(v_, False) for v_ in child_vars} | {('len(%s) == 0' % v_, True) for v_ in child_vars}:
+                r.ok('the early exit is taken when there are no children to descend into')
+                continue
+            for b in inner[-1:]:
+                t = b.ast
+                alts = t.values if isinstance(t, ast.BoolOp) and isinstance(t.op, ast.Or) else [t]
+                okx = b.pol and all(g.alpha.atom(x) in {(a_, True) for a_ in allowed} for x in alts)
+            r.check(okx, 'the early exit is taken only for scalars and nodes already checked', g.key('early-exit'), g.loc(ret),
+                    'the cycle check returns before descending under %s: collections are skipped and `&a [*a]` exhausts the stack again'
+                    % [('' if b.pol else 'not ') + norm(b.ast) for b in inner[-1:]])
+
+
+def r05_17_dump_cycle_walk(ctx, rid='R05.17'):
+    """A refusal, on the dumping side, of values that contain themselves is a sibling of the loader's cycle check: it must keep the
+    same discipline, or it refuses values that are merely shared (written with an anchor and aliases, and loadable)."""
+    P = ctx.P
+    r = ctx.rule(rid, 'a dump-side walk that refuses self-containing values follows the discipline of the loader\'s cycle check '
+                      '(entered before descending, left on every normal exit, memo after the subtree, every child visited)', floor=1)
+    found = 0
+    for mn in ('yatiml.dumper', 'yatiml.representers'):
+        m = P.modules.get(mn)
+        if m is None:
+            continue
+        for fi in m.functions.values():
+            if fi.cls is None or len(fi.params) < 3:
+                continue
+            rec = [c for c in walk_function(fi.node) if isinstance(c, ast.Call) and isinstance(c.func, ast.Attribute)
+                   and c.func.attr.endswith(fi.name.lstrip('_')) and norm(c.func.value) == fi.params[0]]
+            if not rec:
+                continue
+            g = S.fn_of(fi)
+            node = fi.params[1]
+            guarded = False
+            for x in g.raises():
+                for a_, p_ in g.guards(x):
+                    t, pol = g.alpha.atom(a_, p_)
+                    if pol and any(t in ('id(%s) in %s' % (node, pn), '%s in %s' % (node, pn)) for pn in fi.params[2:]):
+                        guarded = True
+            if not guarded:
+                continue
+            found += 1
+            cls = sorted({S.raise_class(x) for x in g.raises()})
+            _cycle_discipline(r, g, fi.name.lstrip('_'), cls[0] if len(cls) == 1 else 'RepresenterError')
+            # started with fresh sets
+            for cf in m.functions.values():
+                for c in walk_function(cf.node):
+                    if cf is not fi and isinstance(c, ast.Call) and isinstance(c.func, ast.Attribute) and c.func.attr.endswith(fi.name.lstrip('_')) \
+                            and cf.cls is fi.cls:
+                        fresh = all(norm(a) in ('set()', 'dict()', '[]', 'list()') for a in c.args[1:]) and not c.keywords
+                        r.check(fresh, '%s starts the walk with fresh sets' % cf.qual, '%s:cycle-walk-args' % cf.key, cf.loc(c),
+                                'the walk is not started with fresh per-call sets (%s)' % [norm(a) for a in c.args])
+    if not found:
+        r.ok('no walk on the dumping side refuses values (nothing to cross-check)')
+    r.done()
+
+
 def r18_1_cycles(ctx, rid='R18.1'):
     P = ctx.P
     r = ctx.rule(rid, 'recursion over the node graph is guarded: a complete acyclicity pre-check (every item, every key and '
@@ -52,94 +210,7 @@ def r18_1_cycles(ctx, rid='R18.1'):
             r.check(bool(node_ok) and fresh and n_given >= 2, '%s: __check_no_cycles(node, set(), set()) - fresh sets per load' % entry,
                     f.key('cycle-check-args'), f.loc(c), 'the cycle check is not given the composed node and fresh per-call sets (%s): '
                     'state from earlier loads would be consulted (ids of freed nodes are reused)' % [norm(a) for a in c.args])
-    g = fn(P, 'yatiml.loader:Loader.__check_no_cycles')
-    a = g.fi.node.args
-    mutable_defaults = [norm(d) for d in a.defaults + [x for x in a.kw_defaults if x is not None]
-                        if isinstance(d, (ast.List, ast.Dict, ast.Set, ast.Call))]
-    r.check(not mutable_defaults, '__check_no_cycles has no mutable default arguments', g.key('mutable-defaults'), g.loc(),
-            '__check_no_cycles has mutable default arguments %s: the ancestor/done sets persist across loads' % mutable_defaults)
-    node = g.fi.params[1]
-    S._structural_recursion(r, g, '__check_no_cycles', node,
-                            lambda n: isinstance(n.func, ast.Attribute) and n.func.attr == '__check_no_cycles', False)
-    rs = g.raises()
-    anc = g.fi.params[2] if len(g.fi.params) > 2 else None
-    ok = bool(rs) and all(S.raise_class(x) == 'RecognitionError' for x in rs) and anc is not None and any(
-        any(g.alpha.atom(a_, p_) in (('id(%s) in %s' % (node, anc), True), ('%s in %s' % (node, anc), True)) for a_, p_ in g.guards(x))
-        for x in rs)
-    r.check(ok, 'a node found among its own ancestors raises RecognitionError', g.key('raise'), g.loc(),
-            'the cycle check does not raise RecognitionError when a node is met among its own ancestors')
-    if anc is not None:
-        adds = [c for c in g.walk() if isinstance(c, ast.Call) and isinstance(c.func, ast.Attribute) and norm(c.func.value) == anc
-                and c.func.attr == 'add' and c.args and g.alpha.text(c.args[0]) in ('id(%s)' % node, node)]
-        rec = [c for c in g.calls('__check_no_cycles')]
-        r.check(bool(adds) and all(any(g.cfg.dominates(g.nid(a_), g.nid(c)) for a_ in adds) for c in rec),
-                'the node is entered into the ancestor set before descending', g.key('ancestors-add'), g.loc(),
-                'the node is not recorded as an ancestor before its children are visited')
-        r.check(all(any(norm(x) == anc for x in c.args) for c in rec), 'the same ancestor set is passed down', g.key('ancestors-passed'),
-                g.loc(), 'the recursive calls do not receive the ancestor set')
-        # ... each set in its own position: ancestors and finished nodes are both sets of ids, swapping them type-checks
-        own = g.fi.params[2:]
-        for c in rec:
-            passed = [norm(x) for x in c.args[1:]] + ['%s=%s' % (k.arg, norm(k.value)) for k in c.keywords]
-            r.check(passed == own and not c.keywords, 'recursive call passes (%s) in the positions it received them' % ', '.join(own),
-                    g.key('recursive-call-arguments:%s' % g.alpha.text(c.args[0])[:40] if c.args else 'recursive-call-arguments'), g.loc(c),
-                    'a recursive call of __check_no_cycles passes %s where the function takes %s: the set of ancestors and the set of '
-                    'finished nodes change roles on the way down, so a node shared between two branches is reported as containing itself '
-                    '(or a real cycle is missed)' % (passed, own))
-        # the node leaves the ancestor set again on every normal exit after it was entered: otherwise a node referenced twice
-        # by siblings ([*a, *a]) is reported as containing itself although the document is a tree
-        rems = {g.nid(c) for c in g.walk() if isinstance(c, ast.Call) and isinstance(c.func, ast.Attribute) and norm(c.func.value) == anc
-                and c.func.attr in ('remove', 'discard') and c.args and g.alpha.text(c.args[0]) in ('id(%s)' % node, node)}
-        okrem = bool(adds) and bool(rems)
-        for a_ in adds:
-            for rn in g.cfg.returns():
-                if rn in g.cfg.reachable(g.nid(a_)) and not g.cfg.must_pass(g.nid(a_), rn, rems):
-                    okrem = False
-        r.check(okrem, 'the node is removed from the ancestor set on every normal exit after it was entered', g.key('ancestors-remove'),
-                g.loc(), 'a node stays in the ancestor set after its subtree was checked: a second, sibling reference to the same anchored '
-                'node (`[*a, *a]`, `{x: *a, y: *a}`) is rejected as self-referential although its expansion loads')
-        # the memo of finished nodes is written after the subtree: a node marked "checked" on entry is skipped by the memo test
-        # when an alias leads back to it from inside - before the ancestor test can see the cycle
-        done_p = g.fi.params[3] if len(g.fi.params) > 3 else None
-        if done_p is not None:
-            marks = [c for c in g.walk() if isinstance(c, ast.Call) and isinstance(c.func, ast.Attribute) and norm(c.func.value) == done_p
-                     and c.func.attr in ('add', 'update') and g.live(c)]
-            def member_of(b, setname):
-                return any(isinstance(x, ast.Compare) and len(x.ops) == 1 and isinstance(x.ops[0], (ast.In, ast.NotIn))
-                           and norm(x.comparators[0]) == setname for x in ast.walk(b.ast))
-            memo_tests = [b for b in g.cfg.nodes if b.kind == 'test' and member_of(b, done_p)]
-            anc_tests = [b for b in g.cfg.nodes if b.kind == 'test' and member_of(b, anc) and not member_of(b, done_p)]
-            anc_first = bool(anc_tests) and all(any(g.cfg.dominates(t.id, m.id) for t in anc_tests) for m in memo_tests)
-            for m_ in marks:
-                after = g.cfg.reachable(g.nid(m_))
-                early = [c for c in rec if g.nid(c) in after and g.nid(c) != g.nid(m_)]
-                r.check(not early or anc_first, 'the node is marked as checked only after its subtree was visited', g.key('memo-after-descent'),
-                        g.loc(m_), 'the node is entered into the set of finished nodes before its children are visited, and that set is '
-                        'consulted before the ancestor set: an alias from inside the node back to it (`&a [*a]`) returns at the memo test, '
-                        'the cycle is never reported and the loader recurses without bound')
-        # early exits before the descent are taken only for nodes that cannot contain anything (scalars) or were checked already
-        done = g.fi.params[3] if len(g.fi.params) > 3 else None
-        allowed = {'isinstance(%s, yaml.ScalarNode)' % node}
-        if done is not None:
-            allowed |= {'id(%s) in %s' % (node, done), '%s in %s' % (node, done)}
-        first_rec = [g.nid(c) for c in rec]
-        for ret in g.returns():
-            if any(g.cfg.dominates(x, g.nid(ret)) for x in first_rec) or any(g.nid(a_) is not None and g.cfg.dominates(g.nid(a_), g.nid(ret)) for a_ in adds):
-                continue
-            inner = g.cfg.guard_nodes(g.nid(ret))
-            okx = bool(inner)
-            # "no children gathered": the collection the descent loops over is empty
-            child_vars = {l.iter.id for c in rec for l in S.enclosing_loops(c, g.node) if isinstance(l, ast.For) and isinstance(l.iter, ast.Name)}
-            if inner and G.canon_atom(inner[-1].ast, inner[-1].pol) in {(v_, False) for v_ in child_vars} | {('len(%s) == 0' % v_, True) for v_ in child_vars}:
-                r.ok('the early exit is taken when there are no children to descend into')
-                continue
-            for b in inner[-1:]:
-                t = b.ast
-                alts = t.values if isinstance(t, ast.BoolOp) and isinstance(t.op, ast.Or) else [t]
-                okx = b.pol and all(g.alpha.atom(x) in {(a_, True) for a_ in allowed} for x in alts)
-            r.check(okx, 'the early exit is taken only for scalars and nodes already checked', g.key('early-exit'), g.loc(ret),
-                    'the cycle check returns before descending under %s: collections are skipped and `&a [*a]` exhausts the stack again'
-                    % [('' if b.pol else 'not ') + norm(b.ast) for b in inner[-1:]])
+    _cycle_discipline(r, fn(P, 'yatiml.loader:Loader.__check_no_cycles'), '__check_no_cycles', 'RecognitionError')
     r.done()
 
 
